@@ -422,11 +422,13 @@ META = {
             'proportionality (R5) uses trace abundances <= 5e-7 and -ln T in '
             '[1e-5, 20], tolerance 2e-4',
             'a share of runs is in correlated-k mode (pickle k-tables on the '
-            'scratch store): there the per-molecule product (R2), the '
-            'weighting recomputation (R7) and proportionality (R5) of the '
-            'Absorption source are not demanded (molecules share the '
-            'quadrature points); composition over sources, add-order '
-            'independence, zero abundance and history independence are',
+            'scratch store): there the per-molecule product (R2) and '
+            'proportionality (R5) of the Absorption source are not demanded '
+            '(molecules share the quadrature points) and each component is '
+            'recomputed as -ln sum_g w_g exp(-tau_g) from the mixing-ratio '
+            'weighted k-coefficients (R7k); composition over sources, '
+            'add-order independence, zero abundance and history independence '
+            'are demanded as elsewhere',
             'what store_contributions hands to the output file is compared '
             'entry by entry (native/binned spectrum and optical depth of '
             'every source and component) with model_contrib / '
